@@ -71,10 +71,19 @@ func vIdle() bool {
 			best, bt = t.at, t
 		}
 	}
-	if c := vTheConn; c != nil && !c.dl.IsZero() {
-		at := int64(c.dl.Sub(vEpoch))
-		if at > vClock && (best < 0 || at < best) {
-			vClock = at
+	if c := vTheConn; c != nil {
+		// the earlier of the armed read and write deadlines that still lies ahead
+		for _, d := range []time.Time{c.dl, c.wdl} {
+			if d.IsZero() {
+				continue
+			}
+			at := int64(d.Sub(vEpoch))
+			if at > vClock && (best < 0 || at < best) {
+				best, bt = at, nil
+			}
+		}
+		if bt == nil && best >= 0 {
+			vClock = best
 			return true
 		}
 	}
@@ -193,7 +202,9 @@ func (vTimeoutErr) Temporary() bool { return true }
 
 type vDConn struct {
 	mu                   sync.Mutex
-	dl                   time.Time
+	dl                   time.Time // read deadline
+	wdl                  time.Time // write deadline
+	blockWrite           bool      // (with silent) the peer does not read either: writes block
 	ops                  int  // I/O and deadline operations so far
 	cancelAt             int  // cancel the context at operation #cancelAt (-1: never)
 	cancelLate           bool // ... at its end instead of its start
@@ -280,6 +291,13 @@ func (c *vDConn) expired() bool {
 	return !c.dl.IsZero() && !c.dl.After(vTimeAt(vNowNs()))
 }
 
+// expiredW: the WRITE deadline has passed (read and write deadlines are separate, as on net.Conn).
+func (c *vDConn) expiredW() bool {
+	c.mu.Lock()
+	defer c.mu.Unlock()
+	return !c.wdl.IsZero() && !c.wdl.After(vTimeAt(vNowNs()))
+}
+
 func (c *vDConn) Read(p []byte) (int, error) {
 	k := c.op()
 	defer c.opEnd(k)
@@ -312,7 +330,12 @@ func (c *vDConn) Read(p []byte) (int, error) {
 func (c *vDConn) Write(p []byte) (int, error) {
 	k := c.op()
 	defer c.opEnd(k)
-	if c.expired() {
+	if c.expiredW() {
+		return 0, vTimeoutErr{}
+	}
+	if c.silent && c.blockWrite {
+		// the peer accepted the connection but does not read: the write blocks until its deadline
+		vWait(c.expiredW)
 		return 0, vTimeoutErr{}
 	}
 	c.mu.Lock()
@@ -321,7 +344,10 @@ func (c *vDConn) Write(p []byte) (int, error) {
 	return len(p), nil
 }
 
-func (c *vDConn) SetDeadline(t time.Time) error {
+func (c *vDConn) SetDeadline(t time.Time) error { return c.setDeadline(t, 0) }
+
+// setDeadline: which = 0 both, 1 read only, 2 write only.
+func (c *vDConn) setDeadline(t time.Time, which int) error {
 	k := c.op()
 	defer c.opEnd(k)
 	if !vSymbolic() && c.hold && !t.IsZero() && t.Before(vRealStart) {
@@ -335,7 +361,12 @@ func (c *vDConn) SetDeadline(t time.Time) error {
 		}
 	}
 	c.mu.Lock()
-	c.dl = t
+	if which != 2 {
+		c.dl = t
+	}
+	if which != 1 {
+		c.wdl = t
+	}
 	c.setDLs++
 	if c.returned {
 		// the deadline is applied after Dial returned: the connection was touched again
@@ -344,8 +375,8 @@ func (c *vDConn) SetDeadline(t time.Time) error {
 	c.mu.Unlock()
 	return nil
 }
-func (c *vDConn) SetReadDeadline(t time.Time) error  { return c.SetDeadline(t) }
-func (c *vDConn) SetWriteDeadline(t time.Time) error { return c.SetDeadline(t) }
+func (c *vDConn) SetReadDeadline(t time.Time) error  { return c.setDeadline(t, 1) }
+func (c *vDConn) SetWriteDeadline(t time.Time) error { return c.setDeadline(t, 2) }
 func (c *vDConn) Close() error {
 	c.mu.Lock()
 	c.closed = true
